@@ -234,19 +234,23 @@ def check(run):
         ids = free_srcs[mode]
         combos = list(itertools.combinations(ids, 2)) + [(i, i) for i in ids[:2]]
         run.rng.shuffle(combos)
-        combos = combos if thorough else combos[:2]
+        combos = combos if thorough else combos[:1]
         k = 0
         for rep in range(reps):
             for a, b in combos:
                 k += 1
                 scs.append({"name": "f-%s-%d" % (mode, k), "mode": mode, "sparecap": k % 2 == 1, "optset": (k // 2) % 2, "perlayer": k % 5 == 4,
                             "srcs": [CATALOGUE[a], CATALOGUE[b]], "free": True, "stale": k % 3 == 0})
-            for n in ((3, 4) if thorough else (3 + run.seed % 2,)):
+            # every source layer of the mode is converted in every run, whatever the seed: one 4-way (and one 2-way) conversion
+            fixed = [[1, 3, 4, 6], [2, 5]] if len(ids) == 6 else [[1, 2, 3, 5]]
+            extra = []
+            if thorough:
+                n = 3
                 pick = [ids[(rep + j * 2 + run.seed) % len(ids)] for j in range(n)]
-                if len(set(pick)) < n:
-                    pick = ids[:n]
+                extra = [pick if len(set(pick)) == n else ids[:n]]
+            for pick in fixed + extra:
                 k += 1
-                scs.append({"name": "f-%s-%d" % (mode, k), "mode": mode, "sparecap": True, "optset": k % 2, "perlayer": False,
+                scs.append({"name": "f-%s-%d" % (mode, k), "mode": mode, "sparecap": True, "optset": (k + rep) % 2, "perlayer": False,
                             "srcs": [CATALOGUE[x] for x in pick], "free": True, "stale": False})
         free[mode] = os.path.join(run.scratch, "free_%s.ndjson" % mode)
         jobs.append({"out": free[mode], "scenarios": scs})
